@@ -280,6 +280,9 @@ def _parse_time(toks):
     time_fmt = '%H:%M:%S'
     if '.' in time_str:
         time_fmt += '.%f'
+        # %f takes at most six digits; ZINC allows more (nanoseconds)
+        (whole, frac) = time_str.split('.', 1)
+        time_str = whole + '.' + frac[:6]
     return [datetime.datetime.strptime(time_str, time_fmt).time()]
 
 
